@@ -18,9 +18,12 @@ pub enum Profile {
     Names,
     Mixed,
     Tiny,
+    /// hundreds of systems that mostly touch nothing: one stage with more than 256 groups, then
+    /// late-comers whose only conflict / dependency is with one of the far groups
+    WideStage,
 }
 
-pub const ALL_PROFILES: [Profile; 10] = [
+pub const ALL_PROFILES: [Profile; 11] = [
     Profile::SparseWide,
     Profile::Dense,
     Profile::Funnel,
@@ -31,6 +34,7 @@ pub const ALL_PROFILES: [Profile; 10] = [
     Profile::Huge,
     Profile::Names,
     Profile::Mixed,
+    Profile::WideStage,
 ];
 
 impl Profile {
@@ -47,6 +51,7 @@ impl Profile {
             Profile::Names => "names",
             Profile::Mixed => "mixed",
             Profile::Tiny => "tiny",
+            Profile::WideStage => "wide-stage",
         }
     }
 }
@@ -82,6 +87,9 @@ pub struct LevelCfg {
     /// percent chance that a barrier position holds a long run of `add_barrier` calls whose length
     /// sits at a counter-width boundary (255..257, 511..513, rarely 65535..65537)
     pub p_barrier_run: usize,
+    /// barriers are (also) placed so that the number of registrations since the previous barrier
+    /// sits at a counter-width boundary (255..257, 511..513)
+    pub seg_boundary: bool,
 }
 
 impl LevelCfg {
@@ -110,6 +118,7 @@ impl LevelCfg {
             p_wide: 1,
             p_failed: 2,
             p_barrier_run: 2,
+            seg_boundary: false,
         }
     }
 }
@@ -192,6 +201,22 @@ pub fn cfg_for(p: Profile, rng: &mut Rng) -> LevelCfg {
                 let k = rng.range(3, 8);
                 c.slots = pick_slots(rng, &all, k);
             }
+            c.seg_boundary = rng.chance(1, 3);
+        }
+        Profile::WideStage => {
+            c.n = (258, 700);
+            c.p_noaccess = rng.range(30, 97);
+            c.slots = Slot::all_ext().collect();
+            c.max_r = 1;
+            c.max_w = 1;
+            c.p_dep = rng.range(1, 6);
+            c.max_deps = 1;
+            c.p_old_dep = 10;
+            c.p_static = 0;
+            c.p_wide = 1;
+            c.p_barrier = 0;
+            c.p_unnamed = 30;
+            c.seg_boundary = rng.chance(1, 3);
         }
         Profile::Names => {
             c.n = (3, 14);
@@ -283,7 +308,18 @@ impl<'r> Gen<'r> {
         }
         let ntl = self.rng.range(c.tl.0, c.tl.1);
         let mut tl_left = ntl;
+        const SEG: [usize; 8] = [255, 256, 256, 256, 257, 511, 512, 513];
+        let mut seg_target = if c.seg_boundary { *self.rng.pick(&SEG) } else { usize::MAX };
+        let mut since_barrier = 0usize;
         for i in 0..n {
+            if since_barrier == seg_target {
+                items.push(Item::Barrier);
+                for x in named.iter_mut() {
+                    x.1 = false;
+                }
+                since_barrier = 0;
+                seg_target = *self.rng.pick(&SEG);
+            }
             if c.p_failed > 0 && self.rng.chance(c.p_failed, 100) {
                 let k = self.failed_kind();
                 items.push(Item::Failed(k));
@@ -309,7 +345,9 @@ impl<'r> Gen<'r> {
                 for x in named.iter_mut() {
                     x.1 = false;
                 }
+                since_barrier = 0;
             }
+            since_barrier += 1;
             // thread-local registrations are sprinkled between the others
             if tl_left > 0 && self.rng.chance(1, 4) {
                 tl_left -= 1;
@@ -344,7 +382,7 @@ impl<'r> Gen<'r> {
                     name: name.clone(),
                     deps,
                     ctl_menu: self.rng.below(N_MENU as usize) as u8,
-                    k: [0u8, 1, 1, 1, 2, 2, 3][self.rng.below(7)],
+                    k: [0u32, 1, 1, 1, 2, 2, 3][self.rng.below(7)],
                     multi,
                     time,
                     inner,
@@ -359,10 +397,11 @@ impl<'r> Gen<'r> {
                 } else if c.p_wide > 0 && self.rng.chance(c.p_wide, 100) {
                     // a system with a very wide access set (more ids than any small-vector or
                     // bit-set shortcut in the library would hold), listed in arbitrary order
-                    let mut all: Vec<Slot> = Slot::all().collect();
+                    let ext = c.slots.iter().any(|s| !s.is_std());
+                    let mut all: Vec<Slot> = if ext { Slot::all_ext().collect() } else { Slot::all().collect() };
                     self.rng.shuffle(&mut all);
-                    let nw = self.rng.range(9, 14);
-                    let nr = self.rng.range(0, 13);
+                    let nw = if ext { self.rng.range(9, 40) } else { self.rng.range(9, 14) };
+                    let nr = if ext { self.rng.range(0, 30) } else { self.rng.range(0, 13) };
                     let w: Vec<Slot> = all[..nw].to_vec();
                     let r: Vec<Slot> = all[nw..nw + nr].to_vec();
                     (r, w)
